@@ -88,11 +88,11 @@ def digest(res):
 LIVE = {}     # one option dictionary per pool item, handed to the model itself run after run (as a loop over scenarios would)
 
 
-def run_item(i, title="c14"):
+def run_item(i, title="c14", reference=False):
     iso, o = (POOL + BATCH_ITEMS)[i]
     live = LIVE.setdefault(i, copy.deepcopy(o))
     r = model.run_case(iso, live, title=title, capture=False, share_options=True)
-    if live != o:
+    if live != o and not reference:        # (the stand-alone reference is only a digest; the histories report a changed dictionary)
         changed = {k: (o.get(k), live.get(k)) for k in set(o) | set(live) if o.get(k) != live.get(k)}
         LIVE[i] = copy.deepcopy(o)
         return None, "the run changed its caller's option dictionary: %r" % changed
@@ -104,7 +104,7 @@ def run_item(i, title="c14"):
 def _alone(i):
     """digest of pool item i computed alone in a fresh interpreter"""
     code = ("import sys, json; sys.path.insert(0, %r); import os; os.chdir(%r); sys.path.insert(0, %r); from checks import c14; "
-            "d, e = c14.run_item(%d); print('DIGEST ' + json.dumps([d, e]))" % (workspace.VERIF, workspace.scratch(), workspace.scratch(), i))
+            "d, e = c14.run_item(%d, reference=True); print('DIGEST ' + json.dumps([d, e]))" % (workspace.VERIF, workspace.scratch(), workspace.scratch(), i))
     env = dict(os.environ, PYTHONPATH=workspace.scratch() + os.pathsep + workspace.VERIF, MPLBACKEND="Agg", PYTHONHASHSEED="0")
     p = subprocess.run([sys.executable, "-c", code], cwd=workspace.scratch(), env=env, capture_output=True, text=True)
     for line in p.stdout.splitlines():
